@@ -68,6 +68,9 @@ enum Op {
     Unconnectable,
     ClosedPort,
     Dns,
+    /// the flow's peer goes away (ECONNREFUSED latched on the flow's socket), comes back on the same
+    /// port and sends to the flow's old socket: the error surfaces on the *receive* path
+    PeerRestart,
 }
 
 struct Server {
@@ -143,7 +146,7 @@ async fn run_history(root: std::path::PathBuf, seed: u64, h: u64, t_ms: u64, cou
     let nops = r.range(10, 26) as usize;
     let mut ops = vec![];
     for _ in 0..nops {
-        ops.push(match r.below(14) {
+        ops.push(match r.below(15) {
             0..=5 => Op::Send(r.below(nflows_plain as u64) as usize),
             6 => Op::Burst(r.below(3) as usize, r.range(2, 6) as usize),
             7 => Op::ExtraReply(r.below(3) as usize),
@@ -152,9 +155,11 @@ async fn run_history(root: std::path::PathBuf, seed: u64, h: u64, t_ms: u64, cou
             10 => Op::Wait(2 * t_ms + 300),
             11 => Op::Unconnectable,
             12 => Op::ClosedPort,
+            13 => Op::PeerRestart,
             _ => Op::Dns,
         });
     }
+    if h % 3 == 0 { let at = r.below(ops.len() as u64 + 1) as usize; ops.insert(at, Op::PeerRestart); }
     ops.push(Op::Send(0));
     ops.push(Op::Send(1));
     let mut seq = 0u64;
@@ -216,6 +221,62 @@ async fn run_history(root: std::path::PathBuf, seed: u64, h: u64, t_ms: u64, cou
             }
             Op::Unconnectable => { faults_done += 1; for _ in 0..2 { seq += 1; let _ = tx.send(UdpIn { source: client(7), destination: "255.255.255.255:9".parse().unwrap(), app_name: None, payload: Bytes::from(mk_payload(90, seq)) }); tokio::time::sleep(Duration::from_millis(5)).await; } }
             Op::ClosedPort => { faults_done += 1; for _ in 0..3 { seq += 1; let _ = tx.send(UdpIn { source: client(8), destination: format!("127.0.0.1:{}", closed_port).parse().unwrap(), app_name: None, payload: Bytes::from(mk_payload(91, seq)) }); tokio::time::sleep(Duration::from_millis(15)).await; } }
+            Op::PeerRestart => {
+                faults_done += 1;
+                let src = client(5);
+                let tag = |t: &str, seq: u64| format!("P:h{}{}s{}", h, t, seq).into_bytes();
+                let mut buf = vec![0u8; 2048];
+                let p = UdpSocket::bind("127.0.0.1:0").await.expect("udp bind");
+                let paddr = p.local_addr().unwrap();
+                let tx_send = |payload: &[u8]| { let _ = tx.send(UdpIn { source: src, destination: paddr, app_name: None, payload: Bytes::copy_from_slice(payload) }); };
+                seq += 1;
+                let a1 = tag("a1", seq);
+                tx_send(&a1);
+                let old_sock = match tokio::time::timeout(Duration::from_millis(800), p.recv_from(&mut buf)).await {
+                    Ok(Ok((n, from))) if buf[..n] == a1[..] => from,
+                    _ => {
+                        if !finished.load(Ordering::SeqCst) { res.bad.push(("client datagram on a live or fresh flow was not sent to its destination".into(), json!({"kind":"udp-flows","history":h,"payload":String::from_utf8_lossy(&a1),"flow":"peer-restart a1","T_ms":t_ms}))); }
+                        continue;
+                    }
+                };
+                drop(p);
+                tokio::time::sleep(Duration::from_millis(15)).await;
+                seq += 1;
+                tx_send(&tag("a2", seq)); // bounces: ICMP port unreachable, error latched on the flow's socket
+                tokio::time::sleep(Duration::from_millis(40)).await;
+                let Ok(p2) = UdpSocket::bind(paddr).await else { res.inconclusive.push("could not rebind the restarted peer's port".into()); continue };
+                seq += 1;
+                let _ = p2.send_to(&tag("r2", seq), old_sock).await; // makes the flow's socket readable: recv reports the error
+                tokio::time::sleep(Duration::from_millis(60)).await;
+                seq += 1;
+                let a3 = tag("a3", seq);
+                tx_send(&a3);
+                let mut fresh = None;
+                let deadline = Instant::now() + Duration::from_millis(800);
+                while Instant::now() < deadline {
+                    match tokio::time::timeout(Duration::from_millis(100), p2.recv_from(&mut buf)).await {
+                        Ok(Ok((n, from))) if buf[..n] == a3[..] => { fresh = Some(from); break; }
+                        _ => {}
+                    }
+                }
+                last_activity.insert(200 + res.ops, Instant::now());
+                match fresh {
+                    None => {
+                        if !finished.load(Ordering::SeqCst) { res.bad.push(("datagram on a pair whose previous socket reported an error was not sent to its destination (no fresh flow)".into(), json!({"kind":"udp-flows","history":h,"payload":String::from_utf8_lossy(&a3),"T_ms":t_ms}))); }
+                    }
+                    Some(from) => {
+                        *res.tallies.entry(if from != old_sock { "peer restart: next datagram on the pair went out from a fresh socket" } else { "peer restart: next datagram on the pair went out from the same socket (error not surfaced)" }.into()).or_insert(0) += 1;
+                        seq += 1;
+                        let r3 = tag("r3", seq);
+                        let _ = p2.send_to(&r3, from).await;
+                        tokio::time::sleep(Duration::from_millis(80)).await;
+                        let hits: Vec<UdpOut> = delivered.lock().unwrap().iter().map(|d| d.1.clone()).filter(|d| d.payload[..] == r3[..]).collect();
+                        if hits.len() != 1 || hits[0].source != paddr || hits[0].destination != src {
+                            if !finished.load(Ordering::SeqCst) { res.bad.push(("datagram from the peer not returned on its own flow with the right labels".into(), json!({"kind":"udp-flows","history":h,"payload":String::from_utf8_lossy(&r3),"delivered":hits.len(),"after":"peer restart"}))); }
+                        } else { *res.tallies.entry("peer restart: reply on the fresh flow labelled correctly".into()).or_insert(0) += 1; }
+                    }
+                }
+            }
             Op::Dns => {
                 if dns.is_some() {
                     let f = flows.len() - 1;
@@ -234,7 +295,7 @@ async fn run_history(root: std::path::PathBuf, seed: u64, h: u64, t_ms: u64, cou
             }
         }
         if finished.load(Ordering::SeqCst) {
-            res.bad.push((format!("multiplexer terminated while the client stream is open (after a {} fault)", match op { Op::Unconnectable => "destination-cannot-be-connected", Op::ClosedPort => "send-to-closed-port", _ => if faults_done > 0 { "per-flow" } else { "no" } }),
+            res.bad.push((format!("multiplexer terminated while the client stream is open (after a {} fault)", match op { Op::Unconnectable => "destination-cannot-be-connected", Op::ClosedPort => "send-to-closed-port", Op::PeerRestart => "socket-error-on-receive (peer restart)", _ => if faults_done > 0 { "per-flow" } else { "no" } }),
                 json!({"kind":"udp-flows","history":h,"op":format!("{:?}", op),"ops_done":res.ops,"result":"exchange returned"})));
             break;
         }
@@ -295,7 +356,7 @@ pub fn run(args: &Args) -> i32 {
         "exploration",
         "history = 12-28 operations over 5-6 flows (two clients sharing a destination, one client with two destinations, a silent peer, a port-53 flow): \
          client datagram, burst, unsolicited peer datagram, waits of T/4, T/2 and 2T+300 ms, datagrams to a destination that cannot be connected \
-         (255.255.255.255, EACCES) and to a closed port (ECONNREFUSED), DNS query; through the real udp_pipe::DuplexPipe + udp_forwarder multiplexer against \
+         (255.255.255.255, EACCES) and to a closed port (ECONNREFUSED), a peer that restarts (socket error surfacing on the receive path, then a datagram on the same pair), DNS query; through the real udp_pipe::DuplexPipe + udp_forwarder multiplexer against \
          real loopback UDP servers in real time with T in {300, 400} ms. Every datagram carries a unique id. distinct_nontrivial = distinct histories.",
     ));
     rep.assume("expiry is only asserted after 2T + 250 ms without activity on every flow; waits whose overshoot exceeds 150 ms make the history inconclusive");
